@@ -23,10 +23,12 @@ def tokenize : Nat → List SChar → Toks
 
 def isWordTok : Kind → Bool
   | .word _ _ => true
+  | .assignArr => true
   | _ => false
 
 def isOperand : Kind → Bool
   | .word _ _ => true
+  | .assignArr => true
   | .io => true
   | _ => false
 
@@ -72,26 +74,38 @@ def gRedirs : Toks → Option Toks
     else some (.op s :: t)
   | ts => some ts
 
-/-- `Parser::simple_command`: returns ((assignments or redirections seen, number of words), rest). -/
-def gSimple : Bool → Nat → Toks → Option ((Bool × Nat) × Toks)
-  | ar, w, [] => some ((ar, w), [])
-  | _, w, .io :: t =>
+/-- `Parser::simple_command`: returns ((assignments or redirections seen, number of words), rest).
+    `inArr`: inside the parentheses of an array assignment (`Parser::array_values`). -/
+def gSimple : Bool → Bool → Nat → Toks → Option ((Bool × Nat) × Toks)
+  | true, _, _, [] => none
+  | true, ar, w, .word _ _ :: t => gSimple true ar w t
+  | true, ar, w, .assignArr :: t => gSimple true ar w t
+  | true, ar, w, .op s :: t =>
+    if s == "\n" then gSimple true ar w t else if s == ")" then gSimple false ar w t else none
+  | true, _, _, _ :: _ => none
+  | false, ar, w, [] => some ((ar, w), [])
+  | false, _, w, .io :: t =>
     match t with
-    | .op s :: o :: t' => if isRedirOp s && isOperand o then gSimple true w t' else none
+    | .op s :: o :: t' => if isRedirOp s && isOperand o then gSimple false true w t' else none
     | _ => none
-  | ar, w, .op s :: t =>
+  | false, ar, w, .op s :: t =>
     if isRedirOp s then
       match t with
-      | o :: t' => if isOperand o then gSimple true w t' else none
+      | o :: t' => if isOperand o then gSimple false true w t' else none
       | [] => none
     else if s == "<(" || s == ">(" || s == "<<" || s == "<<-" then none
     else some ((ar, w), .op s :: t)
-  | ar, w, .word lit asg :: t =>
+  | false, ar, w, .word lit asg :: t =>
     if !ar && w == 0 && isKeyword lit then some ((ar, w), .word lit asg :: t)
-    else if w == 0 && asg then gSimple true w t
-    else gSimple ar (w + 1) t
-  | _, _, .bad :: _ => none
-  | ar, w, .eof :: t => some ((ar, w), .eof :: t)
+    else if w == 0 && asg then gSimple false true w t
+    else gSimple false ar (w + 1) t
+  | false, ar, w, .assignArr :: .op s :: t' =>
+    if w == 0 then (if s == "(" then gSimple true true w t' else gSimple false true w (.op s :: t'))
+    else gSimple false ar (w + 1) (.op s :: t')
+  | false, ar, w, .assignArr :: t =>
+    if w == 0 then gSimple false true w t else gSimple false ar (w + 1) t
+  | false, _, _, .bad :: _ => none
+  | false, ar, w, .eof :: t => some ((ar, w), .eof :: t)
 
 /-- `for_loop_values` after `in` -/
 def gForWords : Toks → Option Toks
@@ -183,7 +197,7 @@ def gPipeRest : Nat → Toks → Option Toks
 def gCommand : Nat → Toks → Option (Bool × Toks)
   | 0, _ => none
   | f + 1, ts =>
-    match gSimple false 0 ts with
+    match gSimple false false 0 ts with
     | none => none
     | some ((ar, w), r) =>
       if ar || w > 0 then
